@@ -8,7 +8,13 @@ CFG = {
                    "GeoModel/Ops/C02.lean", "GeoProofs/Lemmas/SegmentSpec.lean", "GeoProofs/Lemmas/RingSpec.lean",
                    "GeoProofs/Lemmas/LocateLemmas.lean", "GeoProofs/Lemmas/C02QContains.lean", "GeoProofs/Lemmas/C02QWinding.lean",
                    "GeoProofs/Lemmas/C02QHoles.lean", "GeoProofs/Lemmas/C02QPerturb.lean",
-                   "GeoProofs/Lemmas/WINDJump.lean", "GeoProofs/Lemmas/WINDSimple.lean", "GeoProofs/Lemmas/WINDHoles.lean"],
+                   "GeoProofs/Lemmas/WINDJump.lean", "GeoProofs/Lemmas/WINDSimple.lean", "GeoProofs/Lemmas/WINDHoles.lean",
+                   "GeoProofs/Lemmas/WINDCross.lean", "GeoProofs/Lemmas/WINDJordan.lean",
+                   "GeoProofs/Lemmas/C02XTable.lean", "GeoProofs/Lemmas/C02XAdj.lean", "GeoProofs/Lemmas/C02XSide.lean",
+                   "GeoProofs/Lemmas/C02XMulti.lean", "GeoProofs/Lemmas/C02XBox.lean", "GeoProofs/Lemmas/C02XConst.lean",
+                   "GeoProofs/Lemmas/C02XLinear.lean", "GeoProofs/Lemmas/C02XSegs.lean", "GeoProofs/Lemmas/C02XCommon.lean",
+                   "GeoProofs/Lemmas/C02XAcc.lean", "GeoProofs/Lemmas/C02XPoint.lean", "GeoProofs/Lemmas/C02XKernel.lean",
+                   "GeoProofs/Lemmas/C02XThin.lean", "GeoProofs/Lemmas/C02XPairs.lean", "GeoProofs/Lemmas/C02XAreal.lean"],
     "rule": "2/3 of the cases: ordered pairs (A, B) over all 10 types (both through the Geometry enum) from one shared grid, B drawn independently or "
             "from A's own vertices / edge midpoints / edges (so containment is frequent): intersects(A,B), intersects(B,A), contains(A,B), is_within(A,B); "
             "1/3: coordinate_position(G, p) with p a vertex, an edge midpoint or a half-grid point. Three-way comparison per case: implementation, "
@@ -63,6 +69,29 @@ MANIFEST = {
             "one-coordinate case) and the fixed MultiLineString::contains(Point) (all member lists) equal the mask on the specification; Rect::contains(Rect) "
             "<=> every point of the inner closed rect is in the outer one (witness: not the DE-9IM mask for a zero-width Rect, K7); Line::contains(Line) <=> both "
             "end points <=> every point of the inner segment on the outer one (inner line a single point: located in the interior of the outer line). "
+            "C02X (table of the 100 ordered type pairs x {intersects, contains} in GeoProofs/Lemmas/C02XTable.lean): (1) valid MultiPolygon with no hypothesis left: beside every "
+            "non-vertex boundary point of an OGC-valid polygon one of the two face samples is interior (valid_polygon_side_inside: winding jump across a shell edge, "
+            "one side of every edge of a simple ring is outside, IE = F / BE = F / BB <= 0 of polyValid keep the other rings away); hence II = F between two valid polygons "
+            "forbids a point interior to one and on the boundary of the other (valid_polygons_apart, multiPolygon_members_apart) and coordinate_position = locate for every valid "
+            "MultiPolygon (coordPos_multiPolygon_eq_locate_valid). (2) has_disjoint_bboxes is sound for EVERY pair of geometries of the validity domain, in point form and as "
+            "'the specification has the shape FF*FF****' (disjointBB_sound_point, disjointBB_sound_spec; bounding_rect ignores holes but BE = F keeps hole coordinates in the shell's box), "
+            "and for Polygon x Polygon through Rect/Triangle::to_polygon (polyPoly_shortcut_sound). (3) The mask 'not FF*FF****' on the specification is exactly 'the operands have a common "
+            "point' for all operands with closed rings (isIntersects_iff_common_point(_dom)): point location is constant on elementary sub-segments of the arrangement "
+            "(Geo.Proofs.C02X.locate_const), a face atom sits beside a point on or inside the polygon, a common point off the arrangement is walked to the first ring it meets. "
+            "(4) Every kernel except Polygon x Polygon is a point-set statement: polyLine / rectLine / triangle-to_polygon-Line <=> the segment has a point in the area "
+            "(polyLine_iff_point_set, rectLine_iff_point_set, triLine_iff_point_set: a segment missing every ring keeps its winding numbers), rectRect_iff_point_set. "
+            "(5) Hence intersects(a, b) = mask on the specification for EVERY pair of the domain in which one operand has no areal member (Point, Line, LineString, MultiPoint, "
+            "MultiLineString, collections of these; the other operand arbitrary, nested collections included): intersectsM_eq_spec_partial, intersectsM_iff_common_partial, symmetric "
+            "(intersectsM_symm_thin_partial) - 76 of the 100 type pairs, plus Rect x Rect (intersectsM_rect_rect_eq_spec); the nine Line/LineString/MultiLineString pairs for ALL inputs as "
+            "'some segment pair shares a point' (intersectsM_linear_iff, intersectsM_linear_eq_spec). Open (correspondence only): the 15 pairs of areal types that run the "
+            "Polygon x Polygon body (intersectsM_areal_dispatch); for them: what the body computes is characterised exactly (polyPoly_iff_boundary: a ring point of q in p or a shell "
+            "point of p in q, bbox early returns included), true => the mask holds (intersectsM_areal_sound, no false positive), and equality modulo one named step "
+            "(intersectsM_polygon_polygon_partial: two valid polygons with a common point and non-meeting boundaries - one lies inside the other). (6) Against a Point, every geometry g of the domain, collections with disjoint members included: "
+            "coordinate_position(g, p) = locate (coordPos_eq_locate_dom_partial; away from K9 only), intersects(g, Point) and intersects(Point, g) = mask (intersectsM_geom_point, "
+            "intersectsM_point_geom; Point.intersects(g) = g.intersects(Point) for all inputs), contains(g, Point) = T*****FF* (containsM_geom_point), Point.is_within(g) = T*F**F*** "
+            "(withinM_point_geom); the accumulator clauses are additive (calcPos_additive) and members of a domain collection are disjoint point sets (collection_members_apart). "
+            "(7) contains: the 66 impl_contains_from_relate! pairs and the 8 MultiPolygon x linear/areal pairs are the mask on the matrix by definition (containsM_via_relate, "
+            "containsM_multiPolygon_via_relate); open: Point x X (9), Line/LineString x Line/LineString (4), MultiPolygon x MultiPoint, Rect x Rect, Rect x Polygon. "
             "Each generated case is compared three ways (implementation = model, implementation = specification). "
             "Translator ties (TRAN): the accumulator model is no longer only hand-written — ringPos_eq_source (coord_pos_relative_to_ring whole: prologue, "
             "winding loop with early return, final test), calculateCoordinatePosition_eq_source (the calculate_coordinate_position bodies of Coord, Point, "
@@ -73,5 +102,9 @@ MANIFEST = {
             "counter) and Triangle::intersects(Coord) (unrolled to_lines().map, sort = sort3, windows(2).any).",
     "note": "Trusted: Lean kernel + audited axioms; translator; harness (sampling); spec adequacy. Repaired in /repo by this work: Triangle coordinate_position "
             "(29720670), MultiPolygon shared vertex (5f41a6da), MultiPolygon::contains(MultiPoint) (d4024e6e), MultiLineString::contains(Point) (81f1ade9). "
-            "Open: K9 coordinate_position(MultiLineString) at an end point shared by an even number of members (an existing unit test pins that behaviour).",
+            "Open: K9 coordinate_position(MultiLineString) at an end point shared by an even number of members (an existing unit test pins that behaviour). "
+            "Proved vs sampled (C02X): intersects = mask is PROVED for all inputs of the domain on 76+1 of the 100 ordered type pairs (every pair with a Point / Line / LineString / "
+            "MultiPoint / MultiLineString operand, Rect x Rect; collections when one operand has no areal member) and SAMPLED only on the 15 areal x areal pairs (Polygon x Polygon body; "
+            "its bounding-box shortcut is proved sound); contains = mask is PROVED for X x Point (10), and holds by definition on the 74 pairs that go through relate; SAMPLED only on the 16 "
+            "hand-written pairs listed above; coordinate_position = locate is PROVED for all ten types and collections (K9 excluded).",
 }
